@@ -8,7 +8,7 @@ from fractions import Fraction
 from . import e2_formula as F
 from . import op4_model as M
 from .core import AnchorError, Unsupported
-from .e1_srcmodel import dotted, walk_no_nested, parent, ancestors
+from .e1_srcmodel import dotted, walk_no_nested, parent, ancestors, utext
 from .e2_eval import Evaluator, is_unknown, need
 
 OP4 = M.OP4
@@ -31,7 +31,7 @@ def r1_ascii_field(ctx):
     fn = M.func(ctx, "OP4._write_ascii_header")
     init = M.func(ctx, "OP4.__init__")
     # expdigits: len("%.1E" % 1.2) - (find("E") + 2)  -- constant-folded from the format semantics: '1.2E+00'
-    txt = ast.unparse(init).replace(" ", "")
+    txt = utext(init)
     ok = "string='%.1E'%1.2" in txt and "self._expdigits=len(string)-(string.find('E')+2)" in txt
     ctx.check(ok, "OP4.__init__: _expdigits is the number of exponent digits Python prints for '%.1E' (2)", init, nontrivial=False)
     expdigits = len("1.2E+00") - ("1.2E+00".find("E") + 2)
@@ -59,7 +59,7 @@ def r1_ascii_field(ctx):
     ok = bool(hdr) and "1P,{perline}E{numlen}.{digits}{addon}" in ast.unparse(hdr[0]).replace(" ", "")
     ctx.check(ok, "_write_ascii_header: the header announces 1P,{perline}E{numlen}.{digits} - the same numbers used to print", hdr[0] if hdr else fn)
     rd = M.func(ctx, "OP4._loadop4_ascii")
-    t = ast.unparse(rd).replace(" ", "")
+    t = utext(rd)
     ok = "perline=int(numformat[:p])" in t and "numlen=int(numformat[p+1:].split('.')[0])" in t and "linelen=perline*numlen" in t \
         and "numformat.startswith('1P,')" in t and "p=numformat.replace('D','E').find('E')" in t
     ctx.check(ok, "_loadop4_ascii: perline and numlen are parsed back from that announcement and linelen = perline * numlen", rd)
@@ -106,11 +106,11 @@ def r2_headers(ctx):
         ok = all(tb.get(k) == v for k, v in exp.items())
         ctx.check(ok, f"header layout (integer width {w}): the reader slices exactly the columns the writer fills", rd,
                   None if ok else {"writer": exp, "reader": tb})
-    t = ast.unparse(fn).replace(" ", "")
+    t = utext(fn)
     ok = "addon='|I16'ifint_width==16else''" in t
     ctx.check(ok, "_write_ascii_header: the |I16 marker is written exactly when 16-wide integers are used", fn)
     gi = M.func(ctx, "OP4._get_header_info")
-    t = ast.unparse(gi).replace(" ", "")
+    t = utext(gi)
     ok = "int_width=16ifrows>9999999else8" in t
     ctx.check(ok, "_get_header_info: 16-wide header integers when rows needs more than 7 digits (room for the bigmat minus sign)", gi)
     # binary header: "5i8si" <-> read(4), 4 ints, 8 bytes, read(4)
@@ -120,10 +120,10 @@ def r2_headers(ctx):
         [ast.unparse(a) for a in packs[0].args[1:]] == ["24", "cols", "rows", "form", "mtype", "name", "24"]
     ctx.check(ok, "_write_binary_header: record (24 | cols rows form mtype name[8] | 24)", packs[0] if packs else wb)
     rb = M.func(ctx, "OP4._loadop4_binary")
-    t = ast.unparse(rb).replace(" ", "")
+    t = utext(rb)
     ok = "cols,rows,form,mtype=self._Str_iiii.unpack(fp.read(self._bytes_iiii))" in t and "name=fp.read(8).decode()" in t
     ctx.check(ok, "_loadop4_binary: reads (cols rows form mtype) then the 8-byte name", rb)
-    ok = "rows=-rows" in ast.unparse(wb).replace(" ", "") and "rows=-rows" in ast.unparse(fn).replace(" ", "")
+    ok = "rows=-rows" in utext(wb) and "rows=-rows" in utext(fn)
     ctx.check(ok, "both header writers flag the bigmat layout with a negative row count", wb)
     ok = "abs(rows)" in ast.unparse(rb) and "abs(rows)" in ast.unparse(rd)
     ctx.check(ok, "both loaders size the matrix with abs(rows)", rb)
@@ -212,7 +212,7 @@ def r3_string_headers(ctx):
         fn = M.func(ctx, q)
 
         def sub(node, ev):
-            t = ast.unparse(node).replace(" ", "")
+            t = utext(node)
             if t == "ind.shape[0]":
                 return ns
             if t == "ind[:,1]":
@@ -239,7 +239,7 @@ def r3_string_headers(ctx):
             ok = rl is not None and not is_unknown(rl) and nw is not None and rl.equals((3 + nw) * 4)
             ctx.check(ok, f"{q.split('.')[1]}: record length = (3 header words + nwords) * 4 bytes", fn, None if ok else repr(rl))
             packs = [c for c in ast.walk(fn) if isinstance(c, ast.Call) and isinstance(c.func, ast.Attribute) and c.func.attr == "pack"]
-            ok = len(packs) == 1 and [ast.unparse(a).replace(" ", "") for a in packs[0].args] == ["reclen", "c+1", "0", "nwords"]
+            ok = len(packs) == 1 and [utext(a) for a in packs[0].args] == ["reclen", "c+1", "0", "nwords"]
             ctx.check(ok, f"{q.split('.')[1]}: column header is (reclen, column + 1, 0, nwords)", fn)
         else:
             wr = [n for n in ast.walk(fn) if isinstance(n, ast.JoinedStr) and not isinstance(parent(n), ast.FormattedValue)]
@@ -252,18 +252,18 @@ def r3_string_headers(ctx):
         ok = bool(wr) and ast.unparse(wr[0]).replace(" ", "") == "f'{c+1:8}{s+1:8}{elems:8}\\n'"
         ctx.check(ok, "_write_ascii: dense column header is (column + 1, first row + 1, number of values)", fn)
     fn = M.func(ctx, "OP4._write_binary._write_col_data")
-    t = ast.unparse(fn).replace(" ", "")
+    t = utext(fn)
     ok = "reclen=3*4+elems*8" in t and "colHeader.pack(reclen,c+1,s+1,2*elems)" in t and "colTrailer.pack(reclen)" in t
     ctx.check(ok, "_write_binary: dense record = (reclen | column + 1, first row + 1, 2 * values | doubles | reclen), reclen = 12 + 8 * values", fn)
     for q in ("OP4._rd_dense_ascii", "OP4._rd_dense_binary"):
         fn = M.func(ctx, q)
-        t = ast.unparse(fn).replace(" ", "")
+        t = utext(fn)
         ok = "r-=1" in t and ("c=int(line[c_slice])-1" in t or "c-=1" in t)
         ctx.check(ok, f"{q.split('.')[1]}: converts the 1-based column and first row back to 0-based", fn)
     # the end-of-matrix sentinel column (cols + 1) with one dummy value
     for q in ("OP4._write_ascii", "OP4._write_ascii_sparse", "OP4._write_binary", "OP4._write_binary_sparse"):
         fn = M.func(ctx, q)
-        t = ast.unparse(fn).replace(" ", "")
+        t = utext(fn)
         ok = ("f'{cols+1:8}{1:8}{1:8}\\n'" in t) if "ascii" in q else ("colHeader.pack(reclen,cols+1,1,2)" in t and "reclen=3*4+8" in t)
         ctx.check(ok, f"{q.split('.')[1]}: terminates the matrix with the sentinel column cols + 1", fn)
     for q in ("OP4._rd_dense_ascii", "OP4._rd_bigmat_ascii", "OP4._rd_nonbigmat_ascii", "OP4._rd_dense_binary", "OP4._rd_bigmat_binary",
@@ -312,7 +312,7 @@ def r4_ranges_and_dispatch(ctx):
             if isinstance(n, ast.Compare) and len(n.ops) == 1 and "self._rows4bigmat" in ast.unparse(n):
                 comps.append((q, n))
     for q, n in comps:
-        t = ast.unparse(n).replace(" ", "")
+        t = utext(n)
         ok = t in ("rows>=self._rows4bigmat", "self._rows4bigmat<=rows")
         ctx.check(ok, f"{q.split('.')[-1]}: layout switches to bigmat at rows >= 65536 (writers, loaders and skipper must agree on the boundary)", n,
                   None if ok else f"`{t}`: a matrix with exactly 65536 rows would be written in one layout and read in the other",
@@ -372,7 +372,7 @@ def r4_ranges_and_dispatch(ctx):
     ctx.check(ok, "_write_ascii_nonbigmat: IS is written alone on its line (11 columns) and parsed with int(line)", w2["fn"], nontrivial=False)
     # dimension limits guarded before any header is written
     gi = M.func(ctx, "OP4._get_header_info")
-    t = ast.unparse(gi).replace(" ", "")
+    t = utext(gi)
     ok = "rows>99999999orcols>99999998" in t and "rows>2147483647orcols>2147483647" in t
     ctx.check(ok, "_get_header_info: refuses dimensions that do not fit the 8/16-digit ASCII or 32-bit binary header fields", gi)
 
@@ -390,16 +390,16 @@ def r7_input_canonical(ctx):
     ok = "_ensure_dp(v)" in t or "_ensure_dp(" in t
     ctx.check(ok, "_ensure_2d_dp: values are converted to double precision (the only types the writers emit)", arm[0])
     dp = ctx.src.func(OP4, "_ensure_dp")
-    t = ast.unparse(dp).replace(" ", "")
+    t = utext(dp)
     ok = "m.astype(np.complex128)" in t and "m.astype(np.float64)" in t and "np.iscomplexobj(m)" in t
     ctx.check(ok, "_ensure_dp: complex -> complex128, everything else -> float64", dp)
     gi = M.func(ctx, "OP4._get_header_info")
-    t = ast.unparse(gi).replace(" ", "")
+    t = utext(gi)
     ok = "mtype=4" in t and "multiplier=2" in t and "mtype=2" in t and "multiplier=1" in t
     ctx.check(ok, "_get_header_info: type 4 / two doubles per entry for complex, type 2 / one double for real", gi)
     # write dispatch: every named layout maps to its writer, for both encodings
     wr = M.func(ctx, "OP4.write")
-    t = ast.unparse(wr).replace(" ", "")
+    t = utext(wr)
     pairs = [("binary", "dense", "self._write_binary"), ("binary", "bigmat", "self._write_binary_bigmat"), ("binary", "nonbigmat", "self._write_binary_nonbigmat"),
              ("ascii", "dense", "self._write_ascii"), ("ascii", "bigmat", "self._write_ascii_bigmat"), ("ascii", "nonbigmat", "self._write_ascii_nonbigmat")]
     for enc, lay, f_ in pairs:
